@@ -26,17 +26,17 @@ def k3(c0, c1, tier, timeout=280, wide=1):
 RDLOOP = '_ZN5quill2v96detail13BackendWorker31_read_and_decode_frontend_queueINS1_20BoundedSPSCQueueImplImEEEEmRT_PNS1_13ThreadContextEm.0'
 def k1(nrec, hard, tier, timeout=280):
     return Q('K1_read_decode_r%d_h%d' % (nrec, hard), 'C03_k3.cpp', 'h_k1_light', defines=['NCTX=1', 'K1REC=%d' % nrec, 'HARDL=%d' % hard, 'TEBCAP=4'], cuts=TE_CUTS,
-             forbid=K3F + [r'18TransitEventBuffer7_expandEv', r'_process_named_args_format_message', r'_populate_formatted_named_args', r'_apply_runtime_metadata', r'^_ZNK?St10_Hashtable'],
+             forbid=K3F + [r'18TransitEventBuffer7_expandEv', r'_process_named_args_format_message', r'_populate_formatted_named_args', r'_apply_runtime_metadata', r'^_ZNK?St10_Hashtable', r'^_ZNSt6vectorIN8fmtquill3v1116basic_format_arg.*17_M_realloc_insert'],
              zero=[r'BackendWorker31_populate_formatted_log_message', r'RdtscClock'], models=['m_transit.c', 'm_throw.c', 'm_env.c'], libmodels=['m_string.c', 'm_stl.c'],
-             unwind=24, unwindset=['strlen.0:40', RDLOOP + ':%d' % (nrec + 2)], tier=tier, timeout=timeout,
+             unwind=24, unwindset=['strlen.0:40', RDLOOP + ':%d' % (nrec + 2)], cdefs=['VLL_STR_NOGROW'], byteloops=True, tier=tier, timeout=timeout,
              bounds='one context, %d record(s) written by the real log_statement (symbolic timestamps, User or System clock, last record Log or Flush), hard limit %d, ts_now symbolic (incl. "no grace period")' % (nrec, hard),
              what='K1: real _read_and_decode_frontend_queue: records decoded in order into the transit buffer with their timestamp / metadata / logger / flush flag; finish_read for exactly the decoded records; a System-clock record newer than ts_now and everything behind it stays queued, unconsumed; User-clock records are never held back; the hard limit stops the read')
-QUERIES += [k1(1, 8, 'unregistered', 1700), k1(2, 8, 'unregistered', 1700), k1(2, 1, 'unregistered', 1700)]   # K1 runs out of memory (16 GB): kept, not run
+QUERIES += [k1(2, 8, 'quick'), k1(2, 1, 'quick'), k1(1, 8, 'thorough', 1700), k1(3, 8, 'thorough', 1700), k1(3, 2, 'thorough', 1700)]
 QUERIES += [k3(2, 0, 'quick'), k3(1, 1, 'quick'), k3(1, 2, 'quick', wide=0), k3(2, 2, 'thorough', timeout=1700, wide=0), k3(1, 2, 'thorough', timeout=1700)]
 # NOTE: harness/C03_backend.cpp + harness/bk.h (kernels K1/K3 on the real BackendWorker) are kept in the tree but NOT registered:
 # at 1-2 contexts x 1-2 records CBMC needed > 60 GB / did not finish in 10 min (see DESIGN.md section 7).
 MANIFEST = {
- 'text': 'Reduced scope. Decided by the solver on the real code: K2, the per-thread backend ring (TransitEventBuffer) keeps exact FIFO content across position wrap-around, expansion and shrink (inductive step from an arbitrary ring state); K3, the real _process_lowest_timestamp_transit_event dispatches per call exactly one event, the minimum timestamp over all thread buffers, pops exactly that one and reports false iff nothing is buffered, so every buffered event is dispatched once and in global timestamp order; The per-sink fan-out is decided by C16 per_sink_loop and C12 multiline_*, the queues by C01/C02, the level gate by C16, the codec by C04. The read/decode loop incl. the timestamp hold-back (K1: harness exists, CBMC runs out of memory), the poll skeleton (K5), the clean-up condition (K4) and the composition of the kernels are NOT solved (argument in DESIGN.md).',
- 'note': 'K2: capacities 1,2 (quick) / 4 (thorough). K3: 2 contexts x <= 2 events, light worker (only the members the kernel touches are constructed), dispatch observed by an IR hook. TransitEvent payload replaced by a shallow model. Trusted: clang IR, translator, CBMC.',
+ 'text': 'Reduced scope. Decided by the solver on the real code: K2, the per-thread backend ring (TransitEventBuffer) keeps exact FIFO content across position wrap-around, expansion and shrink (inductive step from an arbitrary ring state); K3, the real _process_lowest_timestamp_transit_event dispatches per call exactly one event, the minimum timestamp over all thread buffers, pops exactly that one and reports false iff nothing is buffered, so every buffered event is dispatched once and in global timestamp order; The per-sink fan-out is decided by C16 per_sink_loop and C12 multiline_*, the queues by C01/C02, the level gate by C16, the codec by C04. K1, the real _read_and_decode_frontend_queue on records written by the real log_statement decodes them in order into the ring with their timestamp/metadata/logger/flush flag, marks exactly the decoded records as read, stops at the hard limit and leaves a held-back record and everything behind it unconsumed. The poll skeleton (K5), the clean-up condition (K4) and the composition of the kernels are NOT solved (argument in DESIGN.md).',
+ 'note': 'K2: capacities 1,2 (quick) / 4 (thorough). K1: one context, <= 3 header-only records (Log/Flush), args decoding and rendering not involved; K3: 2 contexts x <= 2 events, light worker (only the members the kernel touches are constructed), dispatch observed by an IR hook. TransitEvent payload replaced by a shallow model. Trusted: clang IR, translator, CBMC.',
  'technique': 'CBMC/SAT over clang IR of the real TransitEventBuffer and BackendWorker dispatch kernel from symbolic states; IR-level observation hooks; native replay',
 }
